@@ -59,6 +59,27 @@ def gen_case(rng):
                       'W': rng.choice([-1, -1, None, 1, 2, 3, 4, 8, 100]),
                       'abandon': rng.random() < 0.45})
     if rng.random() < 0.5:
+        # a later call looks for a longer literal (or its regex form) whose only chance is an occurrence that straddles
+        # two of its own delivery units - after an earlier call with short strings has been through the protocol
+        ks = [k for k, c0 in enumerate(calls) if k >= 1 and len(c0['units']) >= 2]
+        if ks:
+            k = rng.choice(ks)
+            u0, u1 = calls[k]['units'][0], calls[k]['units'][1]
+            try:
+                lit = (u0[-rng.randint(1, 4):] + u1[:rng.randint(2, 5)]).decode('utf-8' if enc else 'latin-1')
+            except UnicodeDecodeError:
+                lit = None
+            if lit:
+                if rng.random() < 0.5:
+                    calls[k]['op'] = 'expect_exact'
+                    calls[k]['pats'] = [{'x': lit}]
+                else:
+                    calls[k]['op'] = rng.choice(['expect', 'expect_list'])
+                    calls[k]['pats'] = [{'re': re.escape(lit)}]
+                calls[k]['W'] = rng.choice([-1, -1, None, 100])
+                calls[0]['op'] = 'expect_exact'
+                calls[0]['pats'] = [{'x': rng.choice('ab')}, {'x': '\x00'}]
+    if rng.random() < 0.5:
         calls[-1]['units'].append('EOF')
     return {'enc': enc, 'calls': calls}
 
